@@ -418,7 +418,8 @@ def m_index(I, st, call):
     kind = ity[1] if ity and ity[0] == "adt" else None
     if isinstance(ix, IntV):
         ok = st.entails(ix.aff) and st.entails(ln - ix.aff - 1)
-        I.note("call:index", call.site, ok, None if ok else "index %r not shown < len %r" % (ix.aff, ln), index=(ix.aff, ln))
+        I.note("call:index", call.site, ok, None if ok else "index %r not shown < len %r" % (ix.aff, ln), index=(ix.aff, ln),
+               definite=(not ok) and st.entails(ix.aff - ln))
         st.add_fact(ln - ix.aff - 1)
         et = pointee(call.dest_ty)
         I.nsym += 1
@@ -451,7 +452,8 @@ def m_index(I, st, call):
                 if not lem:
                     ok = False
                     detail = (detail + "; " if detail else "") + "offsets %r, %r not shown to lie on char boundaries" % (a.aff, b.aff)
-            I.note("call:index", call.site, ok, detail, index=(a.aff, b.aff, ln))
+            I.note("call:index", call.site, ok, detail, index=(a.aff, b.aff, ln),
+                   definite=(not ok) and (st.entails(a.aff - b.aff - 1) or st.entails(b.aff - ln - 1)))
             st.add_fact(b.aff - a.aff)
             st.add_fact(ln - b.aff)
             return [(st, SliceV(b.aff - a.aff, s.base, s.off + a.aff, s.mut))]
